@@ -103,12 +103,94 @@ func (st *wstate) checkClean(i int, l *scen.Lifetime, lf *model.Life, rep *scen.
 			}
 		}
 	}
+	// listed items that must not be listed
+	obsIDs := map[string]int{}
+	freeIDs := map[string]bool{}
+	keepIDs := map[string]string{}
+	checkKept := func(sum *Summary) bool {
+		for _, f := range sum.Files {
+			if prop, keep := plan.KeepFiles[f]; keep {
+				lprops := []string{prop}
+				if !plan.HasRun {
+					lprops = uniq(append(lprops, "C09")) // the report is exact: only stale items are listed
+				}
+				vv := viol("clean-listed-kept-file", i, -1, f, lprops, "Clean lists %s as obsolete but it %s", f, keepWhy(prop))
+				vv.File = f
+				if st.hit(vv) {
+					return true
+				}
+				st.d.MarkDirty(f, false)
+			}
+		}
+		keepFile := map[string]string{}
+		rank := map[string]int{"C09": 1, "C07": 2, "C08": 3}
+		bestRank := map[string]int{}
+		for _, k := range model.SortedKeys(plan.KeepTests) {
+			prop := plan.KeepTests[k]
+			f, id := model.SplitKey(k)
+			// the summary prints ids without their file: when the same id is kept in several
+			// files, blame the one Clean can actually have examined
+			r := rank[prop] * 2
+			if lf.Addressed[f] != nil {
+				r++ // Clean only looks inside files that were addressed
+			}
+			if r > bestRank[id] {
+				bestRank[id] = r
+				keepIDs[id] = prop
+				keepFile[id] = f
+			}
+		}
+		for k := range plan.FreeTests {
+			_, id := model.SplitKey(k)
+			freeIDs[id] = true
+		}
+		for k := range plan.ObsoleteTests {
+			_, id := model.SplitKey(k)
+			obsIDs[id]++
+		}
+		for _, id := range sum.Tests {
+			if obsIDs[id] > 0 || freeIDs[id] || plan.MaybeDirty(id) {
+				// (the listing cannot be attributed to one file: the id is legitimately listed for
+				// another file or may live in an unpredicted one. Whether the kept entry of the
+				// same id survived is decided by the disk comparison below.)
+				continue
+			}
+			if prop, keep := keepIDs[id]; keep {
+				lprops := []string{prop}
+				if !plan.HasRun {
+					lprops = uniq(append(lprops, "C09"))
+				}
+				vv := viol("clean-listed-kept-entry", i, -1, id, lprops, "Clean lists entry [%s] as obsolete but it %s", id, keepWhy(prop))
+				vv.File = keepFile[id]
+				if st.hit(vv) {
+					return true
+				}
+				for k := range plan.KeepTests {
+					if f, kid := model.SplitKey(k); kid == id {
+						st.d.MarkDirty(f, false) // the summary does not say which file: none of them is predicted any more
+					}
+				}
+			}
+		}
+		return false
+	}
 	if cleanFault {
 		// a fault hit Clean itself: only "no panic, nothing on CI" is demanded - and, if a
 		// summary is printed at all, it must not hide what Clean removed in this very call
 		sum, err := ParseSummary(rep.CleanOut)
 		if err != nil || !sum.Present {
 			return false
+		}
+		roOnly := true
+		for _, op := range rep.Ops {
+			if op.Seq > rep.CleanBegin && op.Fault && !op.RO {
+				roOnly = false
+			}
+		}
+		if roOnly && checkKept(sum) {
+			// (a file that cannot be opened for writing can still be read: what is obsolete and
+			// what is not does not depend on it)
+			return true
 		}
 		listed := map[string]bool{}
 		for _, f := range sum.Files {
@@ -160,7 +242,9 @@ func (st *wstate) checkClean(i int, l *scen.Lifetime, lf *model.Life, rep *scen.
 			}
 			for _, e := range f.Entries {
 				if !has[e.ID()] && !listedT[e.ID()] {
-					vv := viol("clean-removed-unlisted-entry", i, -1, e.ID(), []string{"C20"}, "Clean removed entry [%s] from %s but the summary it printed does not list it", e.ID(), path)
+					// (the fault did not hit this file's own rewrite: Clean's rewrite dropped an entry it
+					// does not report - C10 as well)
+					vv := viol("clean-removed-unlisted-entry", i, -1, e.ID(), []string{"C10", "C20"}, "Clean removed entry [%s] from %s but the summary it printed does not list it", e.ID(), path)
 					vv.File = path
 					if st.hit(vv) {
 						return true
@@ -188,73 +272,8 @@ func (st *wstate) checkClean(i int, l *scen.Lifetime, lf *model.Life, rep *scen.
 			}
 		}
 	}
-	// listed items that must not be listed
-	for _, f := range sum.Files {
-		if prop, keep := plan.KeepFiles[f]; keep {
-			lprops := []string{prop}
-			if !plan.HasRun {
-				lprops = uniq(append(lprops, "C09")) // the report is exact: only stale items are listed
-			}
-			vv := viol("clean-listed-kept-file", i, -1, f, lprops, "Clean lists %s as obsolete but it %s", f, keepWhy(prop))
-			vv.File = f
-			if st.hit(vv) {
-				return true
-			}
-			st.d.MarkDirty(f, false)
-		}
-	}
-	keepIDs := map[string]string{}
-	keepFile := map[string]string{}
-	freeIDs := map[string]bool{}
-	rank := map[string]int{"C09": 1, "C07": 2, "C08": 3}
-	bestRank := map[string]int{}
-	for _, k := range model.SortedKeys(plan.KeepTests) {
-		prop := plan.KeepTests[k]
-		f, id := model.SplitKey(k)
-		// the summary prints ids without their file: when the same id is kept in several
-		// files, blame the one Clean can actually have examined
-		r := rank[prop] * 2
-		if lf.Addressed[f] != nil {
-			r++ // Clean only looks inside files that were addressed
-		}
-		if r > bestRank[id] {
-			bestRank[id] = r
-			keepIDs[id] = prop
-			keepFile[id] = f
-		}
-	}
-	for k := range plan.FreeTests {
-		_, id := model.SplitKey(k)
-		freeIDs[id] = true
-	}
-	obsIDs := map[string]int{}
-	for k := range plan.ObsoleteTests {
-		_, id := model.SplitKey(k)
-		obsIDs[id]++
-	}
-	for _, id := range sum.Tests {
-		if obsIDs[id] > 0 || freeIDs[id] || plan.MaybeDirty(id) {
-			// (the listing cannot be attributed to one file: the id is legitimately listed for
-			// another file or may live in an unpredicted one. Whether the kept entry of the
-			// same id survived is decided by the disk comparison below.)
-			continue
-		}
-		if prop, keep := keepIDs[id]; keep {
-			lprops := []string{prop}
-			if !plan.HasRun {
-				lprops = uniq(append(lprops, "C09"))
-			}
-			vv := viol("clean-listed-kept-entry", i, -1, id, lprops, "Clean lists entry [%s] as obsolete but it %s", id, keepWhy(prop))
-			vv.File = keepFile[id]
-			if st.hit(vv) {
-				return true
-			}
-			for k := range plan.KeepTests {
-				if f, kid := model.SplitKey(k); kid == id {
-					st.d.MarkDirty(f, false) // the summary does not say which file: none of them is predicted any more
-				}
-			}
-		}
+	if checkKept(sum) {
+		return true
 	}
 	// ground truth independent of the model: an entry header appended by a Match* call of
 	// this process names a slot that was addressed in this process
